@@ -35,8 +35,10 @@ def directed_cases():
         cases.append(("method", {"cls": ["SmoothStronglyConvexFunction", "SmoothConvexFunction", "ConvexLipschitzFunction"][k % 3],
                                  "mode": "single", "ic_scale": sc, "ic": "dist",
                                  "cfg": {"mode": "dual", "solver": "CLARABEL", "wrapper": "cvxpy", "dimred": None}}, "d:scaled_dual%d" % k))
-    for k in range(8):
-        cases.append(("soup", {"same_name_lmis": True}, "d:same_name_lmis%d" % k))
+    for k in range(12):
+        cases.append(("soup", {"same_name_lmis": True,
+                               "cfg": {"mode": "dual", "solver": "CLARABEL", "wrapper": "cvxpy", "dimred": None} if k % 3 else None},
+                      "d:same_name_lmis%d" % k))
     cases.append(("big", {"N": 11}, "d:big"))
     for cls in CLASSES:
         for variant in (0, 1):
